@@ -228,6 +228,8 @@ structure Variant where
   keycaps : Bool := false
   /-- fixes/C02-clipboard.patch applied (OSC 52 reply parser cuts at the terminator it found) -/
   clip : Bool := false
+  /-- fixes/C02-sgr-strict.patch applied (`parseSgrMouse` rejects on a byte that has no `case`) -/
+  sgr : Bool := false
 deriving DecidableEq, Repr, Inhabited
 
 /-- `prepareKeys` (tscreen.go:508-676): the key table of a screen built for `ti`
